@@ -16,6 +16,8 @@ import (
 	"fmt"
 	"io"
 	"math/rand"
+	"os"
+	"strings"
 	"sync"
 
 	"github.com/ethereum/go-ethereum/crypto"
@@ -91,6 +93,10 @@ type tamperSpec struct {
 	val    byte
 	n      int
 	padLen int
+	// insert only: 1 = aim at the last byte of the unit and let the first inserted byte repeat
+	// the byte it displaces (the unit then reaches the reader unmodified and the stream first
+	// differs in the NEXT unit); 2 = same position, first inserted byte certainly different
+	echo int
 	// filled by the proxy
 	applied bool
 	pos     int
@@ -134,6 +140,7 @@ func regionBounds(widx int, region string, plen, padLen int) (int, int) {
 // install puts the tamper function on the link.
 func (t *tamperSpec) install(l *link, rng *rand.Rand) {
 	h := l.half[t.dir]
+	h.rec = true
 	var held []byte
 	h.tamper = func(widx int, p []byte) ([]byte, bool) {
 		if t.kind == "swap" && widx == t.widx+1 && held != nil {
@@ -154,6 +161,9 @@ func (t *tamperSpec) install(l *link, rng *rand.Rand) {
 		if t.fixed >= 0 {
 			pos = t.fixed % len(p)
 		}
+		if t.kind == "insert" && t.echo != 0 {
+			pos = len(p) - 1
+		}
 		t.pos = pos
 		q := append([]byte{}, p...)
 		switch t.kind {
@@ -170,6 +180,12 @@ func (t *tamperSpec) install(l *link, rng *rand.Rand) {
 		case "insert":
 			ins := make([]byte, t.n)
 			rng.Read(ins)
+			switch t.echo {
+			case 1:
+				ins[0] = p[pos]
+			case 2:
+				ins[0] = p[pos] ^ (1 + ins[0]%255)
+			}
 			q = append(append(append([]byte{}, p[:pos]...), ins...), p[pos:]...)
 		case "delete":
 			e := min(len(p), pos+t.n)
@@ -385,6 +401,19 @@ func runSession(r *vrt.Run, idx int, rng *rand.Rand, sp *sessionPlan) {
 	wg.Wait()
 
 	res := [2]*sideRes{&resA, &resB}
+	// Attribution of the tampering (false alarm corrected, see VALIDATION.md): the modified
+	// unit is the one containing the first byte position at which the stream offered to the
+	// reader differs from the stream the writer wrote, whatever position the mutation was
+	// aimed at. An inserted byte that repeats the byte it displaces at the end of a packet
+	// (or a deletion followed by an equal byte) leaves that packet bit-identical for the
+	// reader; the stream is then first modified in the next unit, and that one must be rejected.
+	diffOff, diffUnit := -1, -1
+	if sp.tamper != nil {
+		diffOff, diffUnit = l.half[sp.tamper.dir].firstDiff()
+	}
+	if replayDump && sp.tamper != nil {
+		dumpStreams(r, l.half[sp.tamper.dir], sp.tamper)
+	}
 	wit := func() map[string]any {
 		w := map[string]any{"session": idx, "kind": sp.kind, "snappy": sp.snappy, "concurrent": sp.concurrent, "split": sp.split,
 			"frag":   []string{chunkNames[sp.frag[0]], chunkNames[sp.frag[1]]},
@@ -403,7 +432,15 @@ func runSession(r *vrt.Run, idx int, rng *rand.Rand, sp *sessionPlan) {
 			w[fmt.Sprintf("writeErr%d", d)] = errStr(res[d].writeErr)
 		}
 		if t := sp.tamper; t != nil {
-			w["tamper"] = fmt.Sprintf("dir=%d widx=%d kind=%s region=%s pos=%d/%d n=%d applied=%v", t.dir, t.widx, t.kind, t.region, t.pos, t.plen, t.n, t.applied)
+			w["tamper"] = fmt.Sprintf("dir=%d widx=%d kind=%s region=%s pos=%d/%d n=%d echo=%d applied=%v", t.dir, t.widx, t.kind, t.region, t.pos, t.plen, t.n, t.echo, t.applied)
+			h := l.half[t.dir]
+			w["stream"] = fmt.Sprintf("written %d bytes, write end offsets %v; offered to the reader %d bytes; first differing offset %d = unit %d (0 handshake packet, k+1 frame k)",
+				len(h.orig), h.bounds[:min(len(h.bounds), 16)], len(h.mut), diffOff, diffUnit)
+			if diffOff >= 0 {
+				lo, hi := max(diffOff-8, 0), diffOff+24
+				w["written_at_diff"] = fmt.Sprintf("[%d..) %x", lo, h.orig[min(lo, len(h.orig)):min(hi, len(h.orig))])
+				w["offered_at_diff"] = fmt.Sprintf("[%d..) %x", lo, h.mut[min(lo, len(h.mut)):min(hi, len(h.mut))])
+			}
 		}
 		return w
 	}
@@ -428,21 +465,28 @@ func runSession(r *vrt.Run, idx int, rng *rand.Rand, sp *sessionPlan) {
 		}
 		r.Eval("wrongdest/" + errClass(resA.hsErr) + "/" + errClass(resB.hsErr))
 		return
-	case t != nil && t.widx == 0:
-		if !t.applied {
-			r.Eval("")
-			return
-		}
+	case t != nil && t.widx == 0 && !t.applied:
+		r.Eval("")
+		return
+	case t != nil && t.widx == 0 && diffUnit == 0:
+		// the handshake packet as offered to the victim differs from the written one at
+		// packet offset diffOff (>= the aimed position; equal to it for flip/replace/truncate)
 		victim := res[1-t.dir]
 		r.Count("hs_tamper_"+t.kind, 1)
-		hsCover(t.dir, t.pos)
+		hsCover(t.dir, diffOff)
 		if victim.hsErr == nil {
 			r.Violation("handshake:tampered-packet-accepted:"+t.kind,
-				fmt.Sprintf("side %d completed the handshake although its incoming handshake packet was modified (%s at %d of %d)", 1-t.dir, t.kind, t.pos, t.plen), wit())
+				fmt.Sprintf("side %d completed the handshake although its incoming handshake packet was modified (%s at %d of %d, first differing byte %d)", 1-t.dir, t.kind, t.pos, t.plen, diffOff), wit())
 		}
-		r.Eval(fmt.Sprintf("tamper-hs/dir%d/%s/%s/frag%s/%s", t.dir, t.kind, hsRegion(t.pos, t.plen), chunkNames[sp.frag[t.dir]], errClass(victim.hsErr)))
+		r.Eval(fmt.Sprintf("tamper-hs/dir%d/%s/%s/frag%s/%s", t.dir, t.kind, hsRegion(diffOff, t.plen), chunkNames[sp.frag[t.dir]], errClass(victim.hsErr)))
 		return
 	default:
+		// untampered handshake, or a mutation aimed at a handshake packet that left every byte
+		// of the packet as it was (the stream first differs behind it): the handshake has to
+		// succeed and the frame verdict below applies to the first differing unit.
+		if t != nil && t.widx == 0 {
+			r.Count("hs_tamper_packet_left_intact_"+t.kind, 1)
+		}
 		if resA.hsErr != nil || resB.hsErr != nil {
 			r.Violation("handshake:genuine-fails", fmt.Sprintf("untampered handshake failed: A: %v, B: %v", resA.hsErr, resB.hsErr), wit())
 			return
@@ -489,16 +533,29 @@ func runSession(r *vrt.Run, idx int, rng *rand.Rand, sp *sessionPlan) {
 			continue
 		}
 		lo, hi := nOK, nOK
-		if t != nil && t.dir == d && t.applied {
-			k := t.widx - 1
-			switch t.kind {
-			case "dup":
-				lo, hi = k+1, k+1
-			default:
-				lo, hi = k, k
+		if t != nil && t.dir == d && t.applied && diffOff >= 0 {
+			// frames in front of the first differing byte arrive intact and are delivered;
+			// the frame containing it (unit diffUnit = frame diffUnit-1) must be rejected.
+			// diffUnit == number of writes: bytes were appended behind an intact stream,
+			// every written message is delivered and the surplus must not be.
+			k := min(diffUnit-1, nOK)
+			lo, hi = k, k
+			aimed := t.widx
+			if t.kind == "dup" {
+				aimed++ // the copy sits in front of the next frame
+			}
+			if diffUnit != aimed {
+				r.Count("tamper_first_diff_in_later_unit", 1)
+				r.Count("tamper_first_diff_in_later_unit_"+t.kind, 1)
 			}
 			r.Count("frame_tamper_"+t.kind+"_"+t.region, 1)
 			outcome = "tamper:" + errClass(rd.readErr)
+			if diffUnit != aimed {
+				outcome = "tamper-later-unit:" + errClass(rd.readErr)
+			}
+		}
+		if t != nil && t.dir == d && t.applied && diffOff < 0 {
+			r.Count("tamper_left_stream_identical", 1) // judged as an untampered session
 		}
 		if sp.kind == "rawsnappy" && d == 0 {
 			for i, m := range sp.msgs[0] {
@@ -541,6 +598,37 @@ func runSession(r *vrt.Run, idx int, rng *rand.Rand, sp *sessionPlan) {
 	if sp.kind == "plain" && r.WantSample() {
 		r.Sample(wit())
 	}
+}
+
+// replayDump (VERIF_C44_REPLAY) makes tamper sessions log the written and the offered stream
+// around the mutation and around the first differing byte.
+var replayDump bool
+
+func dumpStreams(r *vrt.Run, h *half, t *tamperSpec) {
+	off, unit := h.firstDiff()
+	r.Logf("replay: tamper dir=%d widx=%d kind=%s region=%s pos=%d/%d n=%d applied=%v", t.dir, t.widx, t.kind, t.region, t.pos, t.plen, t.n, t.applied)
+	r.Logf("replay: written %d bytes in %d writes, unit end offsets %v; offered to the reader %d bytes", len(h.orig), len(h.bounds), h.bounds, len(h.mut))
+	r.Logf("replay: first differing stream offset %d, inside unit %d", off, unit)
+	if !t.applied || t.widx >= len(h.bounds) {
+		return
+	}
+	start := 0
+	if t.widx > 0 {
+		start = h.bounds[t.widx-1]
+	}
+	end := h.bounds[t.widx]
+	same := end <= len(h.mut) && bytes.Equal(h.orig[start:end], h.mut[start:end])
+	r.Logf("replay: aimed-at unit %d = stream [%d,%d): bytes at these offsets in the offered stream identical to the written ones: %v", t.widx, start, end, same)
+	at := start + t.pos
+	win := func(b []byte, lo, hi int) string {
+		lo, hi = max(lo, 0), min(hi, len(b))
+		if lo >= hi {
+			return ""
+		}
+		return vrt.Hex(b[lo:hi])
+	}
+	r.Logf("replay: written [%d,%d): %s", at-4, at+44, win(h.orig, at-4, at+44))
+	r.Logf("replay: offered [%d,%d): %s", at-4, at+44, win(h.mut, at-4, at+44))
 }
 
 func bucket(n int) int {
@@ -744,6 +832,11 @@ func tamperFramePlan(r *vrt.Run, rng *rand.Rand) *sessionPlan {
 	if t.kind == "insert" && rng.Intn(3) == 0 {
 		t.n = 16 * (1 + rng.Intn(4)) // keep the alignment
 	}
+	if t.kind == "insert" && rng.Intn(4) == 0 {
+		// boundary case that random bytes hit only once in 256 tries: the frame itself stays
+		// intact, the surplus bytes sit in front of the next frame (or at the end of the stream)
+		t.echo, t.region = 1, "bmac"
+	}
 	sp.tamper = t
 	return sp
 }
@@ -757,6 +850,9 @@ func tamperHSPlan(r *vrt.Run, rng *rand.Rand, fixed int, dir int) *sessionPlan {
 		val: byte(rng.Intn(256)), n: 1 + rng.Intn(40)}
 	if fixed >= 0 {
 		t.kind = []string{"flip", "replace"}[rng.Intn(2)]
+	}
+	if t.kind == "insert" && rng.Intn(4) == 0 {
+		t.echo, t.region = 1, "tag" // the packet stays intact, see tamperFramePlan
 	}
 	sp.tamper = t
 	return sp
@@ -884,7 +980,7 @@ func runCrafted(r *vrt.Run, idx int, rng *rand.Rand) {
 // ---------------------------------------------------------------- main
 
 func run(r *vrt.Run) {
-	r.Rule("a case is one RLPx session between two fresh random keys over a fragmenting pipe (read chunk mode per direction: 1/16/512/4096/full bytes, optional split writes), with 0..200 uniquely numbered messages per direction (sizes 0..64 KiB by class, 1 MiB, and the 16 MiB boundary cases), snappy on/off, sequential or concurrent reader/writer; tamper cases modify one handshake packet or one frame (flip/replace/truncate/insert/delete/dup/swap/drop at a region-relative offset); crafted cases are hand-made handshake packets with off-curve points, bad signatures and sizes. signature = (kind, snappy, concurrency, split, chunk modes, size class, message count bucket, tamper kind+region, outcome class); sessions with an unapplied tamper are trivial")
+	r.Rule("a case is one RLPx session between two fresh random keys over a fragmenting pipe (read chunk mode per direction: 1/16/512/4096/full bytes, optional split writes), with 0..200 uniquely numbered messages per direction (sizes 0..64 KiB by class, 1 MiB, and the 16 MiB boundary cases), snappy on/off, sequential or concurrent reader/writer; tamper cases modify one handshake packet or one frame (flip/replace/truncate/insert/delete/dup/swap/drop at a region-relative offset; a quarter of the insertions go in front of the last byte of the unit and start with a copy of that byte, so that the unit stays intact and the next one is the first modified one); the modified unit is determined by comparing the written with the offered byte stream; crafted cases are hand-made handshake packets with off-curve points, bad signatures and sizes. signature = (kind, snappy, concurrency, split, chunk modes, size class, message count bucket, tamper kind+region, outcome class); sessions with an unapplied tamper are trivial")
 
 	race := r.Race()
 	nPlain := r.N(400, 30000)
@@ -895,6 +991,42 @@ func run(r *vrt.Run) {
 	nRaw := r.N(6, 60)
 	if race {
 		nPlain, nTF, nTH, nCraft, nLimit, nRaw = nPlain/6, nTF/8, nTH/8, nCraft/8, 2, 2
+	}
+
+	if spec := os.Getenv("VERIF_C44_REPLAY"); spec != "" {
+		// deterministic replay of single sessions: "tframe:94273,ths:55609" (stream:index, as
+		// in the "session" field of a witness; same VERIF_SEED). Never conclusive.
+		replayDump = true
+		for _, it := range strings.Split(spec, ",") {
+			var idx int
+			name, num, _ := strings.Cut(it, ":")
+			fmt.Sscan(num, &idx)
+			rng := r.Rand(name, idx)
+			var sp *sessionPlan
+			switch name {
+			case "tframe":
+				sp = tamperFramePlan(r, rng)
+			case "ths":
+				fixed, dir := -1, rng.Intn(2)
+				if s := 2 * 520 * 2; idx < s && !race {
+					dir, fixed = idx%2, (idx/2)%520
+				}
+				sp = tamperHSPlan(r, rng, fixed, dir)
+			case "plain":
+				sp = plainPlan(r, rng)
+			default:
+				r.Inconclusive("unknown replay stream %q", name)
+				return
+			}
+			if sp.tamper != nil {
+				fmt.Sscan(os.Getenv("VERIF_C44_ECHO"), &sp.tamper.echo)
+			}
+			sp.sizeClass = sizeClassOf(sp)
+			r.Case("replay %s %d", name, idx)
+			runSession(r, idx, rng, sp)
+		}
+		r.Inconclusive("replay mode (VERIF_C44_REPLAY=%s)", spec)
+		return
 	}
 
 	r.Logf("limit cases")
@@ -992,6 +1124,8 @@ func run(r *vrt.Run) {
 	r.Require("crafted_resp-genuine", 1)
 	r.Require("crafted_auth-ecies-offcurve", 1)
 	if !race {
+		r.Require("tamper_first_diff_in_later_unit_insert", 5)
+		r.Require("hs_tamper_packet_left_intact_insert", 3)
 		r.Require("overlimit_write_rejected", 3)
 		r.Require("raw_oversize_snappy", 1)
 	}
